@@ -52,9 +52,26 @@ def run(ctx):
             for fi in ctx.repo.funcs('fst_raw', q):
                 flow = Flow(ef, fi, 'self', {})
                 cfg = flow.cfg
+                # a local that only ever names a parser: `parse_stmtlike = parse_match_case if is_match_case else parse_ExceptHandler`
+                def names_parser(e):
+                    if isinstance(e, ast.Name):
+                        return e.id in PARSERS
+                    if isinstance(e, ast.IfExp):
+                        return names_parser(e.body) and names_parser(e.orelse)
+                    return False
+                binds = {}
+                for y in walk_no_nested(fi.node):
+                    if isinstance(y, ast.Assign) and len(y.targets) == 1 and isinstance(y.targets[0], ast.Name):
+                        binds.setdefault(y.targets[0].id, []).append(y.value)
+                    elif isinstance(y, (ast.NamedExpr, ast.AugAssign, ast.For)) and isinstance(y.target, ast.Name):
+                        binds.setdefault(y.target.id, []).append(None)
+                parser_aliases = {k for k, vs in binds.items() if vs and all(v is not None and names_parser(v) for v in vs)}
+
                 def is_parse_call(x):
                     if not isinstance(x, ast.Call):
                         return False
+                    if isinstance(x.func, ast.Name) and x.func.id in parser_aliases:
+                        return True
                     if call_name(x) in PARSERS:
                         return True
                     # (parse_match_case if is_match_case else parse_ExceptHandler)(...)
